@@ -15,8 +15,9 @@ Inductive kind := KBool | KInt (w : width) | KUint (w : width) | KF32 | KF64 | K
 Record range := mkrange { r_left : option Z; r_linc : bool; r_right : option Z; r_rinc : bool }.
 Record fopts := mkopts {
   o_optional : bool; o_default : option string; o_options : list string;
-  o_range : option range; o_string : bool }.
-Definition no_opts : fopts := mkopts false None [] None false.
+  o_range : option range; o_string : bool;
+  o_dep : option (bool * string)   (* optional=dep (false, dep) / optional=!dep (true, dep); only with o_optional *) }.
+Definition no_opts : fopts := mkopts false None [] None false None.
 (* parseKeyAndOptions returns options == nil iff the tag has no option segment *)
 Definition opts_nil (o : fopts) : bool :=
   negb (o_optional o) && (match o_default o with None => true | _ => false end) &&
@@ -34,7 +35,8 @@ Definition field := fdecl ty.
 (* ------------------------------------------------------------------ documents and values *)
 Record finfo := mkfi { fi_fits64 : bool; fi_fits32 : bool; fi_canon : bool }.
 Inductive jv :=
-| JNull | JBool (b : bool) | JNum (raw : string) (fi : finfo) | JStr (s : string)
+| JNull | JBool (b : bool) | JNum (raw : string) (fi : finfo)
+| JStr (s : string) (pj : option jv)   (* pj: the value the text denotes when it is a JSON text (encoder oracle) *)
 | JArr (l : list jv) | JObj (m : list (string * jv)).
 Definition obj := list (string * jv).
 
@@ -196,7 +198,8 @@ Fixpoint ty_required (t : ty) : bool :=
       existsb (fun f =>
         if opts_nil (f_opts f) then
           match f_ty f with Struct _ => ty_required (f_ty f) | _ => true end
-        else negb (o_optional (f_opts f)) && (match o_default (f_opts f) with None => true | Some _ => false end)) fs
+        else (negb (o_optional (f_opts f)) && (match o_default (f_opts f) with None => true | Some _ => false end))
+             || (match o_dep (f_opts f) with Some (true, _) => true | _ => false end)) fs
   | _ => true
   end.
 
@@ -243,7 +246,7 @@ Definition in_options (o : fopts) (s : string) : bool :=
 (* reflect.Kind of a decoded document value; json.Number has Kind String *)
 Inductive rk := RNil | RBool | RString | RSlice | RMap.
 Definition vkind (d : jv) : rk :=
-  match d with JNull => RNil | JBool _ => RBool | JNum _ _ | JStr _ => RString | JArr _ => RSlice | JObj _ => RMap end.
+  match d with JNull => RNil | JBool _ => RBool | JNum _ _ | JStr _ _ => RString | JArr _ => RSlice | JObj _ => RMap end.
 
 (* processFieldPrimitiveWithJSONNumber (552-612) *)
 Definition json_number (t : ty) (o : fopts) (raw : string) (fi : finfo) : result val :=
@@ -270,7 +273,7 @@ Definition from_string (t : ty) (o : fopts) (d : jv) : result val :=
   match deref t with
   | Prim k =>
       match d with
-      | JStr s =>
+      | JStr s _ =>
           if negb (in_options o s) then Err E_options else
           bind (convert_set k s None) (fun v => if range_ok_val o v then Ok (wrap_ptr t v) else Err E_range)
       | JNum raw fi =>
@@ -281,6 +284,24 @@ Definition from_string (t : ty) (o : fopts) (d : jv) : result val :=
       end
   | _ => Err E_mismatch
   end.
+
+(* fieldOptions.toOptionsWithContext (fieldoptions.go:70-111, after 4c6e8a8 every option survives, only Optional
+   is replaced): optional=dep -- both keys or neither, and the field is optional iff dep is absent;
+   optional=!dep -- exactly one of the two, and the field is optional iff dep is present *)
+Definition has_key (k : string) (m : obj) : bool := match olookup k m with Some _ => true | None => false end.
+Definition set_optional (o : fopts) (b : bool) : fopts :=
+  mkopts b (o_default o) (o_options o) (o_range o) (o_string o) (o_dep o).
+Definition resolve_opts (o : fopts) (key : string) (m : obj) : result fopts :=
+  if o_optional o then
+    match o_dep o with
+    | None => Ok o
+    | Some (true, dep) =>
+        if String.eqb dep "" then Err E_required else
+        if Bool.eqb (has_key dep m) (has_key key m) then Err E_required else Ok (set_optional o (has_key dep m))
+    | Some (false, dep) =>
+        if Bool.eqb (has_key dep m) (has_key key m) then Ok (set_optional o (negb (has_key dep m))) else Err E_required
+    end
+  else Ok o.
 
 Section WithRec.
   (* the three recursive entry points, one fuel step further down *)
@@ -300,10 +321,54 @@ Section WithRec.
     | Prim KBool, JBool b =>
         if negb (in_options o (if b then "true" else "false")) then Err E_options else
         match o_range o with Some _ => Err E_range | None => Ok (wrap_ptr t (VBool b)) end
-    | Prim KStr, JStr s =>
+    | Prim KStr, JStr s _ =>
         if negb (in_options o s) then Err E_options else
         match o_range o with Some _ => Err E_range | None => Ok (wrap_ptr t (VStr s)) end
     | _, _ => Err E_mismatch
+    end.
+
+  (* fillSliceValue (263-309) for a non-nil element *)
+  Definition slice_value (et : ty) (x : jv) : result val :=
+    match x with
+    | JNum raw fi =>
+        match et with
+        | Prim k => convert_set k raw (Some fi)
+        | Ptr (Prim k) => bind (convert_set k raw (Some fi)) (fun v => Ok (VPtr v))
+        | _ => Err E_mismatch
+        end
+    | JStr s _ =>
+        match et with
+        | Prim k => convert_set k s None
+        | Ptr (Prim k) => bind (convert_set k s None) (fun v => Ok (VPtr v))
+        | _ => Err E_mismatch
+        end
+    | JObj _ => match et with Map et2 => rec_map et2 x | _ => Err E_mismatch end     (* D9 *)
+    | JBool b =>
+        match et with
+        | Prim KBool => Ok (VBool b)
+        | Ptr (Prim KBool) => Ok (VPtr (VBool b))
+        | _ => Err E_mismatch
+        end
+    | _ => Err E_mismatch
+    end.
+
+  (* fillSliceFromString (238-270): the text (string or json.Number) is decoded as JSON into []any; every element goes
+     through fillSliceValue into a slice of the dereffed element type, which must be assignable to the field (D9);
+     a null element is a type mismatch (D9), the text "null" gives an empty slice *)
+  Definition from_string_slice (t et : ty) (d : jv) : result val :=
+    match d with
+    | JStr _ (Some pj) =>
+        match t, et with
+        | Slice _, Ptr _ => Err E_mismatch
+        | Slice _, _ =>
+            match pj with
+            | JArr l => bind (mapM (slice_value et) l) (fun vs => Ok (VSlice vs))
+            | JNull => Ok (VSlice [])
+            | _ => Err E_parse
+            end
+        | _, _ => Err E_mismatch
+        end
+    | _ => Err E_parse                             (* not a JSON text; a number token is never an array *)
     end.
 
   (* processFieldNotFromString (524-553) *)
@@ -313,10 +378,10 @@ Section WithRec.
         match d with JObj m => bind (rec_struct fs m) (fun v => Ok (wrap_ptr t v)) | _ => Err E_mismatch end
     | RMap, Map _ => fill_map t d
     | RString, Map _ => Err E_outside          (* fillMapFromString: encoding/json on the text *)
-    | RString, Slice _ => Err E_outside        (* fillSliceFromString *)
+    | RString, Slice et => from_string_slice t et d
     | RString, Prim KDur =>
         match d with
-        | JStr s => match parse_dur s with Some z => Ok (wrap_ptr t (VInt z)) | None => Err E_parse end
+        | JStr s _ => match parse_dur s with Some z => Ok (wrap_ptr t (VInt z)) | None => Err E_parse end
         | _ => Err E_mismatch                  (* json.Number: type test added by D9 *)
         end
     | _, _ => field_primitive t o d
@@ -373,47 +438,23 @@ Section WithRec.
 
   (* processField (511-522) = processAnonymousField (437-453) | processNamedField (702-733) *)
   Definition process_field (f : field) (m : obj) : result val :=
+    bind (resolve_opts (f_opts f) (f_key f) m) (fun o =>        (* parseOptionsWithContext *)
     if f_anon f then
       match olookup (f_key f) m with
       | Some _ => Err E_anon
       | None =>
           match deref (f_ty f) with
           | Struct sub =>
-              if o_optional (f_opts f) then anon_optional (f_ty f) sub m
+              if o_optional o then anon_optional (f_ty f) sub m
               else bind (mapM (fun sf => rec_field sf m) sub) (fun vs => Ok (wrap_ptr (f_ty f) (VStruct vs)))
           | _ => Panic                           (* NumField of a non-struct type *)
           end
       end
     else
       match olookup (f_key f) m with
-      | None => without_value (f_ty f) (f_opts f)
-      | Some d => with_value (f_ty f) (f_opts f) d
-      end.
-
-  (* fillSliceValue (263-309) for a non-nil element *)
-  Definition slice_value (et : ty) (x : jv) : result val :=
-    match x with
-    | JNum raw fi =>
-        match et with
-        | Prim k => convert_set k raw (Some fi)
-        | Ptr (Prim k) => bind (convert_set k raw (Some fi)) (fun v => Ok (VPtr v))
-        | _ => Err E_mismatch
-        end
-    | JStr s =>
-        match et with
-        | Prim k => convert_set k s None
-        | Ptr (Prim k) => bind (convert_set k s None) (fun v => Ok (VPtr v))
-        | _ => Err E_mismatch
-        end
-    | JObj _ => match et with Map et2 => rec_map et2 x | _ => Err E_mismatch end     (* D9 *)
-    | JBool b =>
-        match et with
-        | Prim KBool => Ok (VBool b)
-        | Ptr (Prim KBool) => Ok (VPtr (VBool b))
-        | _ => Err E_mismatch
-        end
-    | _ => Err E_mismatch
-    end.
+      | None => without_value (f_ty f) o
+      | Some d => with_value (f_ty f) o d
+      end).
 
   (* loop body of fillSlice (193-226) for a non-nil element *)
   Definition slice_elem (et : ty) (x : jv) : result val :=
@@ -451,7 +492,7 @@ Section WithRec.
     | Prim k =>
         match x with
         | JBool b => match k with KBool => Ok (VBool b) | _ => Err E_mismatch end
-        | JStr s => match k with KStr => Ok (VStr s) | _ => Err E_mismatch end
+        | JStr s _ => match k with KStr => Ok (VStr s) | _ => Err E_mismatch end
         | JNum raw fi => convert_set k raw (Some fi)
         | _ => Err E_mismatch
         end
@@ -509,7 +550,7 @@ Definition fuel_of (t : ty) : nat := 2 * ty_depth t + 2.
 From Coq Require Import DecimalString.
 
 Inductive yv :=
-| YNull | YBool (b : bool) | YInt (z : Z) | YFloat (raw : string) (fi : finfo) | YStr (s : string)
+| YNull | YBool (b : bool) | YInt (z : Z) | YFloat (raw : string) (fi : finfo) | YStr (s : string) (pj : option jv)
 | YSeq (l : list yv) | YMap (m : list (string * yv)).
 
 Definition render_z (z : Z) : string := NilZero.string_of_int (Z.to_int z).
@@ -518,11 +559,11 @@ Definition int_fi : finfo := mkfi true true true.
 
 Fixpoint yaml_to_json (y : yv) : jv :=
   match y with
-  | YNull => JStr ""       (* toStringKeyMap default case: lang.Repr(nil) = "" -- NOT JSON null *)
+  | YNull => JStr "" None     (* toStringKeyMap default case: lang.Repr(nil) = "" -- NOT JSON null *)
   | YBool b => JBool b
   | YInt z => JNum (render_z z) int_fi
   | YFloat raw fi => JNum raw fi
-  | YStr s => JStr s
+  | YStr s pj => JStr s pj
   | YSeq l => JArr (map yaml_to_json l)
   | YMap m => JObj (map (fun kv => (fst kv, yaml_to_json (snd kv))) m)
   end.
